@@ -160,19 +160,57 @@ void property(const pbt::Tape& t, pbt::Ctx& ctx) {
         if (std::isnan((double)roots[k].real()) && std::isnan((double)roots[k].imag()) && c.kind != 0 && ctx.known("rootfinder-partial-failure-nan")) { ctx.reject("known:partial-failure-nan"); return; }
         ctx.fail("root " + std::to_string(k) + " is not finite (not all degree-many roots were found): " + show(roots[k])); return; }
 
-    // known finding rpoly-quadit-absolute-floor: RPOLY's quadratic iteration keeps iterating (and may accept a
-    // poorly converged pair) when the larger root of the quadratic iterate is below the absolute floor 0.1
-    // introduced at rpoly.cpp quadit(); site predicate: RPOLY path and >= 2 returned roots of modulus < 0.1.
+    // known finding rpoly-quadit-near-equal-moduli: RPoly::quadit keeps iterating on a quadratic factor whose two
+    // REAL roots have nearly equal moduli -- test "||szr|-|lzr|| <= 0.01*max(|lzr|,0.1)" (the 0.1 floor is a local
+    // addition) -- and its convergence test looks at p(szr) only, so the pair can be accepted with the other root
+    // poorly converged (3 digits). Site predicate (mirrors the code's test with 2x slack, on the returned roots):
+    // RPOLY path and two returned real roots a != b with ||a|-|b|| <= 0.02*max(|a|,|b|,0.1).
     bool rpolyPath = !c.cplx && c.kind != 0, excl = false; double Cb = 0;
     if (rpolyPath) {
-        int small = 0; for (auto& z : roots) if (std::abs(z) < (LD)0.1) small++;
-        if (small >= 2 && ctx.known("rpoly-quadit-absolute-floor")) { ctx.label("excluded:rpoly-small-roots"); excl = true; }
+        bool hit = false;
+        for (int i = 0; i < n && !hit; ++i) for (int j = i + 1; j < n; ++j) {
+            if (roots[i].imag() != 0 || roots[j].imag() != 0) continue;
+            LD a = std::abs(roots[i].real()), b = std::abs(roots[j].real());
+            if (std::abs(a - b) <= (LD)0.02 * std::max(std::max(a, b), (LD)0.1)) { hit = true; break; }
+        }
+        if (hit && ctx.known("rpoly-quadit-near-equal-moduli")) { ctx.label("excluded:rpoly-near-equal-moduli"); excl = true; }
     }
-    if (!excl) {
+    // known finding jt-deflation-large-root-first: roots are returned in the order found; when Jenkins-Traub finds a
+    // large root before much smaller ones, forward deflation by the large root is unstable and the later roots can be
+    // garbage (relative residual several %). Site predicate: RPOLY path and a returned root whose modulus exceeds 10x
+    // the modulus of a root returned after it.
+    if (rpolyPath && !excl) {
+        bool hit = false; LD big = 0;
+        for (int i = 0; i < n && !hit; ++i) { LD m = std::abs(roots[i]); if (big > 10 * m) hit = true; big = std::max(big, m); }
+        if (hit && ctx.known("jt-deflation-large-root-first")) { ctx.label("excluded:large-root-first"); excl = true; }
+    }
+    // known finding cpoly-deflation-large-roots: CPOLY (complex coefficients, degree >= 3) loses accuracy in the
+    // roots found after the first in proportion to the root modulus when the roots are >> 1 (residual ratio
+    // ~ 1e1 x modulus: 1e7 at |z| ~ 1e6, i.e. garbage in float). Site predicate (on the INPUT): CPOLY path and
+    // root-modulus bound B = max_i (|a_i|/|a_0|)^(1/i) > 10.
+    if (c.cplx && c.kind != 0) {
+        LD B = 0; for (int i = 1; i <= n; ++i) B = std::max(B, std::pow(std::abs(c.coef[i]) / std::abs(c.coef[0]), (LD)1 / i));
+        if (B > 10 && ctx.known("cpoly-deflation-large-roots")) { ctx.label("excluded:cpoly-large-roots"); excl = true; }
+    }
+    {
     // 2. backward error of every root
-    // class constants (DESIGN C30 calibration): complex 1e10 (recalibrated for scales 1e+-6: CPOLY
-    // loses ~7 digits for |roots| >= 1e6, observed max 1.7e7), real separated/raw 1e9, real clustered 1e12
-    Cb = c.cplx ? 1e10 : (c.mode == 2 ? 1e12 : 1e9);
+    // class constants (DESIGN C30 calibration): complex 1e6 (observed max 3e3 for root bound <= 10; the
+    // large-root degradation of CPOLY is the known finding above), real separated/raw 1e9, real clustered 1e12
+    // "clustered" is judged on the returned roots (any two closer than 10% relative), so that raw-coefficient
+    // and "separated" cases that happen to contain a close pair get the clustered constant as well
+    bool closePair = c.mode == 2;
+    for (int i = 0; i < n && !closePair; ++i) for (int j = i + 1; j < n; ++j) {
+        LD d = std::abs(roots[i] - roots[j]), m = std::max(std::abs(roots[i]), std::abs(roots[j]));
+        if (d <= (LD)0.1 * m) { closePair = true; break; }
+    }
+    if (closePair) ctx.label("class:close-pair");
+    // float + general degree >= 4: successive Jenkins-Traub deflation in single precision leaves residuals of
+    // several per cent (thorough runs: ratio up to 8e5 ~ relative residual 1), indistinguishable from a wrong root
+    // by any constant (limit stated in DESIGN C30); only the structural clauses (count, finiteness, conjugate
+    // pairing) are judged for that class. float quadratics, cubics and double of every degree are fully judged.
+    if (c.isFloat && c.kind == 2 && n >= 4) { ctx.label("float-general-degree>=4:structural-only"); excl = true; }
+    if (!excl) {
+    Cb = c.cplx ? 1e6 : (closePair ? 1e12 : 1e9);
     if (c.isFloat) Cb = std::min(Cb, 1e5) ;   // float: eps is 1e-7, a wrong root has ratio ~1e7
     static const bool calib = getenv("C30_CALIB") != nullptr;
     if (calib) Cb = 1e300;
@@ -203,7 +241,7 @@ void property(const pbt::Tape& t, pbt::Ctx& ctx) {
         }
     }
 
-    }
+    } }
     // 4. conjugate pairs for real coefficients
     if (!c.cplx) {
         std::vector<char> used(n, 0);
@@ -246,7 +284,7 @@ void property(const pbt::Tape& t, pbt::Ctx& ctx) {
 
 pbt::Config config() {
     pbt::Config c; c.prop = "C30"; c.K = 8; c.minUnits = 2;
-    c.quick = {20000, 60000, 22, 25}; c.thorough = {200000, 400000, 22, 240};
+    c.quick = {100000, 300000, 22, 30}; c.thorough = {400000, 1500000, 22, 300};
     c.rule = "rapidcheck tape -> polynomial: kind {Vec<3>,Vec<4>,Vector_} x {real,complex} x {float,double} x mode {raw coefficients, separated roots, multiple/clustered roots, symmetric +-z pairs}, degree 2..20 (number of tape units), scale 1e-6..1e6. Non-trivial: degree >= 3, or quadratic with zero linear coefficient, or multiple/clustered/symmetric roots; distinct by tape hash.";
     c.assumptions = {"long double evaluation of p(r) is exact enough to judge double/float residuals", "rpoly/cpoly exceptions ('failure to find any roots') are clean rejections", "class constants C from DESIGN C30 calibration (probe J)"};
     c.directed.push_back({"cpoly-gives-up-nan-roots", "rootfinder-partial-failure-nan", [](pbt::Ctx& ctx) {
@@ -257,6 +295,16 @@ pbt::Config config() {
         int nan = 0; for (int i = 0; i < 9; ++i) if (std::isnan(r[i].real())) nan++;
         ctx.desc << "degree 9 complex-coefficient polynomial with roots 0, +-1e-6(x2), ...; NaN roots returned: " << nan << "\n";
         ctx.check(nan == 0, std::to_string(nan) + " of 9 roots returned as NaN without an exception");
+    }});
+    c.directed.push_back({"cpoly-float-large-roots-garbage", "cpoly-deflation-large-roots", [](pbt::Ctx& ctx) {
+        // x^3 + (19829172+179076320i) x : roots 0, +-(8953.8-9999.99i); float CPOLY returns +-(108794.75-98976.6i)
+        typedef std::complex<float> C; Vec<4, C> a(C(1, 0), C(0, 0), C(19829172.f, 179076320.f), C(0, 0)); Vec<3, C> r;
+        PolynomialRootFinder::findRoots(a, r);
+        double worst = 0;
+        for (int k = 0; k < 3; ++k) { CL z(r[k].real(), r[k].imag()), p = 0; LD b = 0; for (int i = 0; i < 4; ++i) { CL ai(a[i].real(), a[i].imag()); p = p * z + ai; b = b * std::abs(z) + std::abs(ai); }
+            if (b > 0) worst = std::max(worst, (double)(std::abs(p) / b)); }
+        ctx.desc << "float complex cubic x^3+(19829172+179076320i)x: worst |p(r)|/sum|a_i||r|^i = " << worst << "\n";
+        ctx.check(worst < 1e-2, "returned roots have relative residual " + pbt::str(worst) + " (garbage) without an exception");
     }});
     c.requiredLabels = {"quad/real/double", "cubic/real/double", "general/real/double", "general/complex/double", "mode:clustered", "quad:b==0", "forward-checked"};
     return c;
